@@ -58,7 +58,7 @@ Theorem content_length_message line info block h body rest :
   block <> [] -> prefixb CRLF block = false -> cut (CRLF ++ CRLF) (block ++ CRLF) = None ->
   hparse [] block = Some h ->
   (match k with Server => p11 info && negb (hmem K_HOST h) | Client => false end) = false ->
-  c_hdrs C (p11 info) h = HOk ->
+  c_hdrs C (p11 info) h = HOk -> connect_response C k line = false ->
   hget K_TE h = None -> hget K_CE h = None ->
   hget K_CL h = Some (dec_of_N (N.of_nat (length body))) ->
   triggers_2047 (dec_of_N (N.of_nat (length body))) = false ->
@@ -67,7 +67,7 @@ Theorem content_length_message line info block h body rest :
   turn_of L C k {| buf := line ++ CRLF ++ block ++ CRLF ++ CRLF ++ body ++ rest; cur := None |} =
   TMsg {| buf := rest; cur := None |} {| m_line := line; m_hdrs := h; m_body := body |}.
 Proof.
-  intros Hline Hstart Hbne Hbpre Hbcut Hparse Hhost Hhdrs Hte Hce Hcl Htrig Hint Hnobody.
+  intros Hline Hstart Hbne Hbpre Hbcut Hparse Hhost Hhdrs Hnc Hte Hce Hcl Htrig Hint Hnobody.
   rewrite turn_of_eq. cbn [cur buf].
   (* start line *)
   unfold parse_startline. cbn [allow_lf reference andb].
@@ -81,7 +81,7 @@ Proof.
   rewrite Epre, (cut_CRLF2_none_app block (body ++ rest) Hbcut (or_intror I)).
   unfold parse_block. destruct block as [|c0 block]; [congruence|]. cbn [nonempty_b]. rewrite Hparse.
   (* on_headers_complete *)
-  unfold on_headers_complete. cbn [i_hdrs set_phase set_hdrs i_info]. rewrite Hhost, Hhdrs, Hce.
+  unfold on_headers_complete. cbn [i_hdrs i_line set_phase set_hdrs i_info]. rewrite Hhost, Hhdrs, Hce, (hc_hdrs_plain C k line h Hnc).
   (* body *)
   rewrite after_headers_eq. unfold parse_body, set_ce, set_phase, set_hdrs.
   cbn [i_line i_le i_info i_phase i_hdrs i_ce i_len i_chunked i_trailer i_body].
@@ -116,7 +116,7 @@ Theorem content_length_message_then line info block h body rest :
   block <> [] -> prefixb CRLF block = false -> cut (CRLF ++ CRLF) (block ++ CRLF) = None ->
   hparse [] block = Some h ->
   (match k with Server => p11 info && negb (hmem K_HOST h) | Client => false end) = false ->
-  c_hdrs C (p11 info) h = HOk -> hget K_TE h = None -> hget K_CE h = None ->
+  c_hdrs C (p11 info) h = HOk -> connect_response C k line = false -> hget K_TE h = None -> hget K_CE h = None ->
   hget K_CL h = Some (dec_of_N (N.of_nat (length body))) ->
   triggers_2047 (dec_of_N (N.of_nat (length body))) = false ->
   py_int10_text INT_MAX_STR_DIGITS (dec_of_N (N.of_nat (length body))) = Some (Z.of_nat (length body)) ->
@@ -124,8 +124,8 @@ Theorem content_length_message_then line info block h body rest :
   parse L C k init (line ++ CRLF ++ block ++ CRLF ++ CRLF ++ body ++ rest) =
   let '(s2, m2, e) := parse L C k init rest in (s2, {| m_line := line; m_hdrs := h; m_body := body |} :: m2, e).
 Proof.
-  intros A1 A2 A3 A4 A5 A6 A7 A8 A9 A10 A11 A12 A13 A14.
-  pose proof (content_length_message line info block h body rest A1 A2 A3 A4 A5 A6 A7 A8 A9 A10 A11 A12 A13 A14) as T.
+  intros A1 A2 A3 A4 A5 A6 A7 A8 A8c A9 A10 A11 A12 A13 A14.
+  pose proof (content_length_message line info block h body rest A1 A2 A3 A4 A5 A6 A7 A8 A8c A9 A10 A11 A12 A13 A14) as T.
   set (S0 := line ++ CRLF ++ block ++ CRLF ++ CRLF ++ body ++ rest) in *.
   rewrite (parse_eq L C k init S0).
   change (app_buf init S0) with {| buf := S0; cur := None |}. change (buf init ++ S0) with S0.
@@ -146,14 +146,14 @@ Theorem content_length_message_exact line info block h body rest :
   block <> [] -> prefixb CRLF block = false -> cut (CRLF ++ CRLF) (block ++ CRLF) = None ->
   hparse [] block = Some h ->
   (match k with Server => p11 info && negb (hmem K_HOST h) | Client => false end) = false ->
-  c_hdrs C (p11 info) h = HOk -> hget K_TE h = None -> hget K_CE h = None ->
+  c_hdrs C (p11 info) h = HOk -> connect_response C k line = false -> hget K_TE h = None -> hget K_CE h = None ->
   hget K_CL h = Some (dec_of_N (N.of_nat (length body))) ->
   N.of_nat (length (dec_of_N (N.of_nat (length body)))) <= INT_MAX_STR_DIGITS ->
   (match k with Server => nobody info && nonempty_b body | Client => false end) = false ->
   parse L C k init (line ++ CRLF ++ block ++ CRLF ++ CRLF ++ body ++ rest) =
   let '(s2, m2, e) := parse L C k init rest in (s2, {| m_line := line; m_hdrs := h; m_body := body |} :: m2, e).
 Proof.
-  intros A1 A2 A3 A4 A5 A6 A7 A8 A9 A10 A11 A12 A13.
+  intros A1 A2 A3 A4 A5 A6 A7 A8 A8c A9 A10 A11 A12 A13.
   apply (content_length_message_then line info block h body rest); auto.
   - unfold triggers_2047. rewrite dec_of_N_no_2047. reflexivity.
   - rewrite (py_int10_dec_of_N INT_MAX_STR_DIGITS _ (or_intror A12)). rewrite nat_N_Z. reflexivity.
